@@ -297,6 +297,10 @@ CALLBACK_SEQS = [
     ["macro_list c 40 41 42", "clone_from v0 c", "drop c"], ["macro_list c 40", "clone_from v0 c", "drop c"],
     ["macro_list c 40 41 42 43 44 45 46 47 48", "clone_from v0 c", "drop c"],
     ["into_iter v0 it", "macro_list c 1 2 3", "into_iter c j", "clone_from_iter it j", "drop j", "drop it"],
+    # `last` (a fold that keeps the newest element): a destructor of a replaced accumulator, a predicate or the iterator's
+    # own drop may panic
+    ["into_iter v0 it", "last it"], ["into_iter v0 it", "next it", "last it"], ["drain v0 I1 E4 it", "last it"], ["drain v0 U U it", "next_back it", "last it"],
+    ["splice v0 I1 E4 it[7,8] it", "last it"], ["splice v0 I0 E2 it[7,8,9,10,11,12] it", "last it"], ["drain_filter v0 seqTTFTT it", "last it"],
 ]
 
 def panic_sweep(tier, seed, mode):
@@ -869,10 +873,10 @@ PROPS = {
             "cases": lambda tier, seed: [(m, c + views_cases(m) + panic_prefix_cases(m) + clone_glue_cases(m) + lying_hint_cases(m)) for m, c in general(tier, seed, "C01")] + [("release", boundary_grid("release") + views_cases("release"))],
             "owned_oracles": ["O vec-mismatch", "O view-mismatch", "O ledger duplicate-id", "O ledger bitwise-copy", "panic-prefix", "macro-evals", "X signal"], "owned_diffs": ["result", "contents", "panic", "crash"],
             "partial_missing": ["refinement to Vec semantics proved for every history over push, pop, insert, remove, swap_remove, truncate, clear, retain (any predicate), reserve, reserve_exact, shrink_to, shrink_to_fit (C01_refines_vec_partial); separately proved value-for-value: extend_from_slice, resize, resize_with (any generator) (C01Loops), From<&[T]> (C01_from_slice_partial), clone, extend/collect, dedup*, Drain, IntoIter, DrainFilter (any predicate); append, split_off, drain_vec, mini_vec![a, b, c], splice (any replacement iterator), extend_from_within, remove_item (any equality), mini_vec![e; n], clone_from; C01_histories_partial composes them over EVERY history of 25 operation kinds incl. the three borrowing iterators created, stepped and dropped; From<&str>, Cow, the Borrow/AsRef/Deref/Index views are tied to Vec and to the model by the correspondence only (views oracle)"]},
-    "C02": {"modules": ["MiniVecProof.Props.C10Provided", "MiniVecProof.Props.C02", "MiniVecProof.Props.C02Histories", "MiniVecProof.Props.C10", "MiniVecProof.Props.C10IntoIter", "MiniVecProof.Props.C10DrainFilter"],
+    "C02": {"modules": ["MiniVecProof.Props.C10Provided", "MiniVecProof.Props.C02", "MiniVecProof.Props.C02Histories", "MiniVecProof.Props.C02All", "MiniVecProof.Props.C02Splice", "MiniVecProof.Props.C10", "MiniVecProof.Props.C10IntoIter", "MiniVecProof.Props.C10DrainFilter"],
             "cases": lambda tier, seed: [(m, c + raw_natural_cases(m) + serde_error_cases(m)) for m, c in general(tier, seed, "C02")],
             "owned_oracles": ["O ledger", "O view-mismatch", "X signal"], "owned_diffs": ["own", "crash"],
-            "partial_missing": ["exactly-once destruction and conservation proved for every completed history over the 12 operations of POp (incl. retain with any predicate) followed by Drop (C02_exactly_once_partial, C02_no_double_drop, C02_no_leak); for Drain and IntoIter dropped after any interleaving of steps: yielded front ++ destroyed ++ yielded back reversed = the selected range (specSteps_partition + C10_drain_partial / C10_into_iter_partial); DrainFilter: yielded ++ destroyed = accepted, vector = rejected (C10_drain_filter_partial); C02_histories_partial / C02_histories_into_iter_partial: EVERY completed history over the base operations, extend (any source), dedup / dedup_by / dedup_by_key (any relation), drain(range) with any steps then drop, drain_filter(pred) with any steps then drop, ended by dropping the vector or by into_iter() with any steps then drop: one destructor event per element of `dropped`, and dropped ++ everything yielded or returned is a rearrangement of the starting contents ++ everything handed in; the cloning operations, resize_with, remove_item and Splice by correspondence + per-element ledger"]},
+            "partial_missing": ["exactly-once destruction and conservation proved for every completed history over the 12 operations of POp (incl. retain with any predicate) followed by Drop (C02_exactly_once_partial, C02_no_double_drop, C02_no_leak); for Drain and IntoIter dropped after any interleaving of steps: yielded front ++ destroyed ++ yielded back reversed = the selected range (specSteps_partition + C10_drain_partial / C10_into_iter_partial); DrainFilter: yielded ++ destroyed = accepted, vector = rejected (C10_drain_filter_partial); C02_histories_partial / C02_histories_into_iter_partial: EVERY completed history over the base operations, extend (any source), dedup / dedup_by / dedup_by_key (any relation), drain(range) with any steps then drop, drain_filter(pred) with any steps then drop, ended by dropping the vector or by into_iter() with any steps then drop: one destructor event per element of `dropped`, and dropped ++ everything yielded or returned is a rearrangement of the starting contents ++ everything handed in; C02_every_history_partial (Props/C02All, C02Splice): the same for EVERY completed history over all 25 operation kinds of HOp, by destructor events: the cloning operations (extend_from_slice, resize, extend_from_within: the clones are new elements handed to the vector), resize_with, remove_item and splice (create, any steps, drop: exactly the unyielded part of the range is destroyed; the temporary that collects the rest of the replacement is emptied before it is dropped) included; the multi-register operations and serde by correspondence + per-element ledger"]},
     "C03": {"modules": ["MiniVecProof.Props.C01", "MiniVecProof.Proofs.MemDrop", "MiniVecProof.Props.C09", "MiniVecProof.Props.C03World"],
             "cases": lambda tier, seed: [(m, c + huge_cases(m) + raw_natural_cases(m) + extend_ref_cases(m) + lying_hint_cases(m) + grow_with_tail_cases(m) + mixed_alignment_cases(m)) for m, c in general(tier, seed, "C03", modes=("debug", "release"))],
             "owned_oracles": ["O alloc", "O cap"], "owned_diffs": ["alloc", "ub", "crash"],
